@@ -390,6 +390,11 @@ func (r *SearchRequest) validatePagination() error {
 	}
 
 	for i := range pagination {
+		if pagination[i] == search.HighTerm || pagination[i] == search.LowTerm {
+			// the sort value of a hit that lacks the field: it is what such
+			// a hit reports in Sort/DecodedSort and has to be accepted back
+			continue
+		}
 		switch ss := r.Sort[i].(type) {
 		case *search.SortGeoDistance:
 			_, err := strconv.ParseFloat(pagination[i], 64)
